@@ -24,7 +24,8 @@ COMMONS = (0, 1, 2, 3)
 
 BOUNDS = {
     "quick": dict(R=2, C=2, R3=1, prec_max=2, two_orders=False),
-    "thorough": dict(R=3, C=2, R3=2, prec_max=3, two_orders=True, R1=4),
+    # RC: maximum row count per column count (None = 1-D); columns beyond the table are not generated
+    "thorough": dict(R=3, C=3, R3=2, prec_max=3, two_orders=True, R1=4, RC={None: 4, 1: 3, 2: 3, 3: 2}),
 }
 
 
@@ -311,6 +312,8 @@ def expand(key, cfg, reverse=False, prune=None):
     if ndim == 1 and cfg.get("R1"):
         R = cfg["R1"]
     cols = None if ndim == 1 else shape[1]
+    if cfg.get("RC") and ndim <= 2:
+        R = cfg["RC"].get(cols, 0)
     fresh = lambda: build(key, reverse)  # noqa
 
     # --- observations on the state itself (C06 reading, C17 non-mutation) -----------------------
@@ -502,6 +505,9 @@ def expand(key, cfg, reverse=False, prune=None):
     # --- column_stack ------------------------------------------------------------------------------------
     mycols = 1 if ndim == 1 else shape[1]
     for pc in ([None] + list(range(1, C - mycols + 1))) if mycols < C else []:
+        newcols = mycols + (1 if pc is None else pc)
+        if cfg.get("RC") and nrows > cfg["RC"].get(newcols, 0):
+            continue
         for o in operand_arrays(nrows, pc):
             for oc in COMMONS:
                 for nc in (None,) + COMMONS:
@@ -691,7 +697,10 @@ def _expand_set_updates(key, d, fresh, ctx):
 def initial_keys(cfg):
     R, C = cfg["R"], cfg["C"]
     keys = []
-    shapes = [(n,) for n in range(0, max(R, cfg.get("R1", 0)) + 1)] + [(n, c) for c in range(1, C + 1) for n in range(0, R + 1)]
+    if cfg.get("RC"):
+        shapes = [(n,) for n in range(0, cfg["RC"][None] + 1)] + [(n, c) for c in range(1, C + 1) for n in range(0, cfg["RC"].get(c, 0) + 1)]
+    else:
+        shapes = [(n,) for n in range(0, max(R, cfg.get("R1", 0)) + 1)] + [(n, c) for c in range(1, C + 1) for n in range(0, R + 1)]
     for sh in shapes:
         for a in M.all_arrays(sh, VALS):
             for c in COMMONS:
